@@ -17,6 +17,7 @@ from .. import core
 from .. import structworld as W
 from .. import struct_props as S
 from .. import struct_api_gen as api
+from ..mechworld import MechCorr
 from ..impl import mx, close_all, quiet
 
 CFG = {
@@ -121,9 +122,16 @@ class H(S.Hooks):
     def start(self, live, stats):
         self.clash = False
         self.basechange = False
+        # the mechanism model (driver layer `smech`), edit by edit - `space.rename` included
+        self.mech = MechCorr()
+
+    def before(self, live, ops, k, op, stats):
+        self.mech.before(live, k, op)
 
     def after(self, live, ops, k, op, result, out, stats):
         hist = S.hist_json(ops, k)
+        if op[0] != "evalall":
+            self.mech.after(live, k, op, result)
         if result.startswith("err") and op[0] in ("new_cells", "set_ref", "new_space", "rename_cells", "add_bases"):
             self.clash = True
         if result == "ok" and op[0] in ("add_bases", "remove_bases"):
@@ -182,6 +190,7 @@ class H(S.Hooks):
             out.fail("the library's own consistency check raised %r after %s" % (e, op[0]), hist)
 
     def end(self, live, ops, out, stats):
+        self.mech.finish(out, lambda kk: S.hist_json(ops, kk), stats)
         # what formulas see: a probe cells returning the names it can resolve
         for path, s in W.all_spaces(live.m):
             if "zprobe" in s.cells or len(s.cells) >= 6:
